@@ -1337,7 +1337,7 @@ impl<'a> Exec<'a> {
         }
         if let Prim::Get { k } = prim {
             *self.sk_gets.entry(*k).or_insert(0) += 1;
-            if self.is_sync() && !self.maint_inside_op && post.read_q == self.pre.read_q {
+            if self.is_sync() && !self.maint_inside_op && post.read_q == self.pre.read_q && self.pre.read_q >= post.read_q_cap {
                 // the read queue was full: this lookup was dropped
                 self.sk_undecidable = true;
                 self.stats.inc("lookups_dropped_by_a_full_read_queue");
@@ -1430,6 +1430,55 @@ impl<'a> Exec<'a> {
                 self.stats.inc("eviction_events_with_2_victims");
             }
             self.removal_causes.insert("evicted");
+        }
+        // ---- C12, "only as many as needed", without the recency model (any cache size) ----
+        // The victims are the shortest LRU prefix freeing the required weight, so taking the
+        // last victim back must leave less than the required weight freed. With E the evicted
+        // weight, w the heaviest victim (at least the last one's weight) and X the weight that
+        // left in this step for other reasons (invalidated, expired, an update that shrank an
+        // entry; counted as if it had left after the eviction, which is the lenient order):
+        // no new key admitted: resident weight after + X + w > max_capacity;
+        // new key of weight m admitted: E < (excess before the step) + m + 2w.
+        let plain_step = window.len() <= 1
+            && window.iter().all(|w| matches!(w.prim, Prim::Insert { .. } | Prim::Get { .. } | Prim::Contains { .. } | Prim::Invalidate { .. } | Prim::InvalidateIf { .. } | Prim::InvalidateAll | Prim::Iter | Prim::Counters | Prim::DebugFmt));
+        if self.flags.lru && !removed_other.is_empty() && plain_step {
+            if let Some(c) = cap {
+                // (an entry updated by this very step weighs what the update gave it)
+                let upd: Option<(u32, u64)> = match window.first().map(|w| &w.prim) {
+                    Some(Prim::Insert { k, w }) if self.q_prev.has(*k) => Some((*k, weight_of(self.cfg, *w) as u64)),
+                    _ => None,
+                };
+                let wt = |k: u32| match upd {
+                    Some((uk, uw)) if uk == k => uw,
+                    _ => self.q_prev.get(k).map_or(0, |e| weight_of(self.cfg, e.w_val) as u64),
+                };
+                let e_w: u64 = removed_other.iter().map(|k| wt(*k)).sum();
+                let wmax: u64 = removed_other.iter().map(|k| wt(*k)).max().unwrap_or(0);
+                let mut x: u64 = self.q_prev.entries.iter().filter(|e| !post.has(e.k) && !removed_other.contains(&e.k)).map(|e| wt(e.k)).sum();
+                let prev_w: u64 = self.q_prev.entries.iter().map(|e| wt(e.k)).sum();
+                let mut fresh: Option<u64> = None;
+                if let Some(Prim::Insert { k, w }) = window.first().map(|w| w.prim.clone()) {
+                    let mw = weight_of(self.cfg, w) as u64;
+                    match self.q_prev.get(k) {
+                        Some(old) => x += (weight_of(self.cfg, old.w_val) as u64).saturating_sub(mw),
+                        None if post.has(k) => fresh = Some(mw),
+                        None => {}
+                    }
+                }
+                let over = match fresh {
+                    Some(m) => e_w >= prev_w.saturating_sub(c) + m + 2 * wmax && e_w > 0,
+                    None => phys_w + x + wmax <= c,
+                };
+                if over {
+                    let mut ev = removed_other.clone();
+                    ev.truncate(12);
+                    viol!("C12", step, "{:?}: {} entries weighing {e_w} were removed for capacity (first: {ev:?}, heaviest {wmax}), more than needed: resident weight before {prev_w}, after {phys_w}, max_capacity {c}, weight that left for other reasons {x}{}", window.first().map(|w| w.prim.clone()), removed_other.len(), fresh.map_or(String::new(), |m| format!(", admitted newcomer weighs {m}")));
+                }
+                self.stats.inc("eviction_amount_checks");
+                if removed_other.len() > 100 {
+                    self.stats.inc("eviction_amount_checks_with_more_than_100_victims");
+                }
+            }
         }
         // newcomers that did not make it
         for wop in &window {
